@@ -863,6 +863,11 @@ def t_opt_peek(facts, res, tier):
             for p in walk(n["e"]):
                 if p in peeks:
                     owners.setdefault(id(p), "match")
+        elif k == "macro" and n.get("name") == "matches" and n.get("pat") is not None and isinstance(n.get("e"), dict):
+            # `matches!(iter.peek(), Some(..) if ..)`: the line obtained is matched against a pattern
+            for p in walk(n["e"]):
+                if p in peeks:
+                    owners.setdefault(id(p), "match")
     for i, p in enumerate(peeks):
         how = owners.get(id(p), "unbound")
         key = "T-OPT-PEEK:%d:%s" % (i, how)
